@@ -727,7 +727,7 @@ class URL:
         """
         parts = []
         _add = parts.append
-        if self.username and with_userinfo:
+        if (self.username or self.password) and with_userinfo:
             _add(quote_userinfo_part(self.username))
             if self.password:
                 _add(':')
